@@ -516,9 +516,10 @@ func TestChild(t *testing.T) {
 	be := &backend{log: lf}
 	module.Register("auth.x09backend", func(_, _ string, _, _ []string) (module.Module, error) { return be, nil })
 	var eps []module.Module
-	for _, e := range []struct{ sock, login string }{{"p.sock", "no"}, {"pl.sock", "yes"}} {
+	// p.sock: sasl_login left at its default (off); pl.sock: sasl_login yes
+	for _, e := range []struct{ sock, login string }{{"p.sock", ""}, {"pl.sock", "    sasl_login yes\n"}} {
 		addr := "unix://" + filepath.Join(dir, e.sock)
-		text := "dovecot_sasld " + addr + " {\n    auth x09backend\n    sasl_login " + e.login + "\n    auth_map_normalize noop\n}\n"
+		text := "dovecot_sasld " + addr + " {\n    auth x09backend\n" + e.login + "    auth_map_normalize noop\n}\n"
 		ep, err := dovecotsasld.New("dovecot_sasld", []string{addr})
 		if err != nil {
 			t.Fatal(err)
